@@ -1959,7 +1959,13 @@ impl DtlsInner {
                         debug!("DTLS handshake feeder closed — exiting loop");
                         return Ok(());
                     };
+                    #[cfg(rustrtc_verif)]
+                    let mut verif_published = false;
                     if let Err(e) = self.handle_incoming_packet(packet, &mut ctx, &incoming_data_tx, &certificate, is_client).await {
+                        #[cfg(rustrtc_verif)]
+                        {
+                            verif_published = true;
+                        }
                         #[cfg(rustrtc_verif)]
                         crate::verif_hooks::decoders::publish_hs_ctx(Arc::as_ptr(&self.state) as usize, [ctx.recv_message_seq as u64, ctx.message_seq as u64, ctx.incomplete_handshake.len() as u64, ctx.incomplete_msg_seq as u64, ctx.handshake_messages.len() as u64, ctx.post_hvr as u64, 1]);
                         warn!("DTLS handshake loop error in handle_incoming_packet: {}", e);
@@ -1970,7 +1976,9 @@ impl DtlsInner {
                         }
                     }
                     #[cfg(rustrtc_verif)]
-                    crate::verif_hooks::decoders::publish_hs_ctx(Arc::as_ptr(&self.state) as usize, [ctx.recv_message_seq as u64, ctx.message_seq as u64, ctx.incomplete_handshake.len() as u64, ctx.incomplete_msg_seq as u64, ctx.handshake_messages.len() as u64, ctx.post_hvr as u64, 0]);
+                    if !verif_published {
+                        crate::verif_hooks::decoders::publish_hs_ctx(Arc::as_ptr(&self.state) as usize, [ctx.recv_message_seq as u64, ctx.message_seq as u64, ctx.incomplete_handshake.len() as u64, ctx.incomplete_msg_seq as u64, ctx.handshake_messages.len() as u64, ctx.post_hvr as u64, 0]);
+                    }
                 }
             }
         }
